@@ -341,3 +341,87 @@ func semaTie(c *ctx, r *Report, n int, envMod func(rng *rand.Rand, env *semaEnv)
 	_, err := b.flush(c, r)
 	return err
 }
+
+// typeUniverse: every type of depth ≤ 2 built from the scalars, arrays (both Deref flags at the top level), strict /
+// loose / map objects with 0–2 properties over the keys a, b.
+func typeUniverse() []actionlint.ExprType {
+	scal := []actionlint.ExprType{actionlint.AnyType{}, actionlint.NullType{}, actionlint.NumberType{}, actionlint.BoolType{}, actionlint.StringType{}}
+	level := func(inner []actionlint.ExprType, derefs bool) []actionlint.ExprType {
+		var out []actionlint.ExprType
+		for _, e := range inner {
+			out = append(out, &actionlint.ArrayType{Elem: e})
+			if derefs {
+				out = append(out, &actionlint.ArrayType{Elem: e, Deref: true})
+			}
+			out = append(out, actionlint.NewMapObjectType(e))
+			out = append(out, actionlint.NewStrictObjectType(map[string]actionlint.ExprType{"a": e}))
+			out = append(out, actionlint.NewObjectType(map[string]actionlint.ExprType{"a": e}))
+			out = append(out, actionlint.NewStrictObjectType(map[string]actionlint.ExprType{"b": e}))
+		}
+		for i, e := range inner {
+			if i%2 == 0 {
+				f := inner[(i+1)%len(inner)]
+				out = append(out, actionlint.NewStrictObjectType(map[string]actionlint.ExprType{"a": e, "b": f}))
+				out = append(out, actionlint.NewObjectType(map[string]actionlint.ExprType{"a": f, "b": e}))
+				out = append(out, &actionlint.ObjectType{Props: map[string]actionlint.ExprType{"a": f}, Mapped: e})
+			}
+		}
+		out = append(out, actionlint.NewEmptyStrictObjectType(), actionlint.NewEmptyObjectType())
+		return out
+	}
+	l1 := append(append([]actionlint.ExprType{}, scal...), level(scal, true)...)
+	l2 := level(l1, false)
+	return append(l1, l2...)
+}
+
+// tyOpsTie compares Merge / Assignable / String of expr_type.go with the model on all pairs of the universe
+// (quick: all pairs of the depth ≤ 1 part and a sample of the rest). The receiver is deep-copied first.
+func tyOpsTie(c *ctx, r *Report, judge func(cs Case) (string, string)) error {
+	u := typeUniverse()
+	var b batch
+	b.judge = judge
+	rng := rand.New(rand.NewSource(c.seed + 104729))
+	n1 := 37 // size of the depth ≤ 1 part (5 scalars + 32)
+	if n1 > len(u) {
+		n1 = len(u)
+	}
+	pairs := 0
+	for i, t1 := range u {
+		for j, t2 := range u {
+			if !(i < n1 && j < n1) {
+				p := 40
+				if !c.quick {
+					p = 3
+				}
+				if rng.Intn(p) != 0 {
+					continue
+				}
+			}
+			pairs++
+			a, bb := encTy(t1), encTy(t2)
+			mk := func(op string) Case {
+				return Case{Op: "tyop " + op, Input: map[string]string{"left": a, "right": bb, "left_str": t1.String(), "right_str": t2.String()}}
+			}
+			var merged actionlint.ExprType
+			var asg bool
+			pmsg, to := guarded(10e9, func() { merged = t1.DeepCopy().Merge(t2.DeepCopy()); asg = t1.Assignable(t2) })
+			r.Evaluations += 2
+			if pmsg != "" || to {
+				cs := mk("merge")
+				cs.Note = pmsg
+				r.Crashes = append(r.Crashes, cs)
+				continue
+			}
+			b.add("tyop merge "+a+" "+bb, encTy(merged), mk("merge"))
+			v := "0"
+			if asg {
+				v = "1"
+			}
+			b.add("tyop assign "+a+" "+bb, v, mk("assign"))
+		}
+	}
+	r.Rule += fmt.Sprintf("; type operations: Merge and Assignable of expr_type.go vs the model on %d ordered pairs from a universe of %d types (all scalars, arrays with both Deref flags, strict / loose / map objects with 0–2 properties, nested to depth 2)", pairs, len(u))
+	r.hist(fmt.Sprintf("tyop-pairs:%d", pairs))
+	_, err := b.flush(c, r)
+	return err
+}
